@@ -468,4 +468,194 @@ proof fn theorem_read_back_text<'i>(pre: ReaderState, rem: Seq<u8>, brem: Seq<u8
         assert(logical(post, rem2) == rest);
     }
 }
+
+// ---------------------------------------------------------------------------------------------
+// The other direction (C08, second sentence): what was read, written again, is the input.
+// For every outcome event_post allows with an event `e` (trimming and empty-element expansion off), the bytes
+// consumed by the call are exactly render(e) -- so the writer, which appends render(e), reproduces them.
+// Excluded by the statement itself: a stripped byte-order mark (`brem` below is the input after it) and
+// DOCTYPE, whose keyword is re-spelled by the writer.
+// ---------------------------------------------------------------------------------------------
+/// among the first n positions there is a first terminator, or none at all
+proof fn lemma_first_bang_term(ty: BangType, t: Seq<u8>, n: int)
+    requires 0 <= n <= t.len()
+    ensures (exists|k: int| 0 <= k < n && bang_term(ty, t, k) && no_bang_term_before(ty, t, k)) || no_bang_term_before(ty, t, n)
+    decreases n
+{
+    if n > 0 {
+        lemma_first_bang_term(ty, t, n - 1);
+        if no_bang_term_before(ty, t, n - 1) {
+            if bang_term(ty, t, n - 1) {
+                assert(0 <= n - 1 < n && bang_term(ty, t, n - 1) && no_bang_term_before(ty, t, n - 1));
+            } else {
+                assert forall|j: int| 0 <= j < n implies !bang_term(ty, t, j) by {}
+            }
+        } else {
+            let k = choose|k: int| 0 <= k < n - 1 && bang_term(ty, t, k) && no_bang_term_before(ty, t, k);
+            assert(0 <= k < n && bang_term(ty, t, k) && no_bang_term_before(ty, t, k));
+        }
+    }
+}
+/// the settings under which C08 is stated
+spec fn verbatim(c: Config) -> bool {
+    !c.trim_text_start && !c.trim_text_end && !c.expand_empty_elements && !c.trim_markup_names_in_closing_tags
+}
+/// the markup step: '<' and the bytes it consumed are render(e)
+proof fn lemma_markup_consumes_render<'i>(pm: ReaderState, x: Seq<u8>, m: ReaderState, rem2: Seq<u8>, e: Event<'i>)
+    requires
+        markup_post(pm, x, m, rem2, Ok(e), false),
+        verbatim(pm.config), !(e is DocType),
+    ensures
+        lt() + x == render(e) + rem2,
+        !(m.state is InsideMarkup), !(e is Eof),
+{
+    reveal(markup_post);
+    let r: core::result::Result<Event<'i>, Error> = Ok(e);
+    if x.len() == 0 {
+    } else if x[0] == 0x21 {
+        match bang_kind(second(x)) {
+            None => {}
+            Some(kind) => {
+                lemma_first_bang_term(kind, x, x.len() as int);
+                if no_bang_term_before(kind, x, x.len() as int) {
+                } else {
+                    let k = choose|k: int| 0 <= k < x.len() && bang_term(kind, x, k) && no_bang_term_before(kind, x, k);
+                    let buf = x.subrange(0, k);
+                    assert(rem2 == skip(x, k + 1));
+                    assert(post_emit_bang(&mid(pm, k + 1), &m, kind, buf, r));
+                    assert(x =~= buf + gt() + rem2);
+                    if kind is Comment && sw(buf, seq![0x21u8, 0x2d, 0x2d]) {
+                        let c = buf.subrange(3, buf.len() - 2);
+                        assert(buf =~= comment_open() + c + comment_close());
+                        assert(lt() + x =~= seq![0x3cu8, 0x21u8, 0x2du8, 0x2du8] + c + seq![0x2du8, 0x2du8, 0x3eu8] + rem2);
+                    } else if kind is CData && sw(buf, seq![0x21u8, 0x5b, 0x43, 0x44, 0x41, 0x54, 0x41, 0x5b]) {
+                        // the terminator "]]" lies behind the keyword: the keyword holds no ']'
+                        assert(k - 2 >= 8) by { if k - 2 < 8 { assert(x[k - 2] == buf[k - 2]); } if k - 1 < 8 { assert(x[k - 1] == buf[k - 1]); } }
+                        let c = buf.subrange(8, buf.len() - 2);
+                        assert(buf =~= cdata_open() + c + cdata_close());
+                        assert(lt() + x =~= seq![0x3cu8, 0x21, 0x5b, 0x43, 0x44, 0x41, 0x54, 0x41, 0x5b] + c + seq![0x5du8, 0x5d, 0x3e] + rem2);
+                    }
+                }
+            }
+        }
+    } else if x[0] == 0x2f {
+        match tag_end(ElementParser::Outside, x) {
+            Some(i) => {
+                lemma_tag_bounds(ElementParser::Outside, x);
+                let buf = x.subrange(0, i);
+                assert(x =~= buf + gt() + rem2);
+                let name = buf.subrange(1, buf.len() as int);
+                assert(buf =~= seq![0x2fu8] + name);
+                assert(lt() + x =~= seq![0x3cu8, 0x2fu8] + name + seq![0x3eu8] + rem2);
+            }
+            None => {}
+        }
+    } else if x[0] == 0x3f {
+        lemma_pi_first(false, x);
+        match pi_end(false, x) {
+            Some(i) => {
+                let buf = x.subrange(0, i);
+                assert(x =~= buf + gt() + rem2);
+                if buf.len() > 1 && buf[buf.len() - 1] == 0x3f {
+                    let c = buf.subrange(1, buf.len() - 1);
+                    assert(buf =~= qm() + c + qm());
+                    assert(lt() + x =~= seq![0x3cu8, 0x3f] + c + seq![0x3fu8, 0x3e] + rem2);
+                }
+            }
+            None => {}
+        }
+    } else {
+        match tag_end(ElementParser::Outside, x) {
+            Some(i) => {
+                lemma_tag_bounds(ElementParser::Outside, x);
+                let content = x.subrange(0, i);
+                assert(x =~= content + gt() + rem2);
+                let n = content.len() as int;
+                if n > 0 && content[n - 1] == 0x2f {
+                    let c = content.subrange(0, n - 1);
+                    assert(content =~= c + seq![0x2fu8]);
+                    assert(lt() + x =~= seq![0x3cu8] + c + seq![0x2fu8, 0x3eu8] + rem2);
+                } else {
+                    assert(lt() + x =~= seq![0x3cu8] + content + seq![0x3eu8] + rem2);
+                }
+            }
+            None => {}
+        }
+    }
+}
+
+/// THEOREM (C08). With trimming and expansion off, one read-event call that returns an event `e` (not a DOCTYPE)
+/// consumes exactly render(e): unread-before == render(e) ++ unread-after. In the very first call "unread-before"
+/// is the input after the byte-order-mark sniff (`brem`).
+proof fn theorem_read_then_write<'i>(pre: ReaderState, rem: Seq<u8>, brem: Seq<u8>, post: ReaderState, rem2: Seq<u8>, e: Event<'i>)
+    requires
+        event_post(pre, rem, brem, post, rem2, Ok(e), false),
+        verbatim(pre.config), !(e is DocType), !(pre.state is InsideEmpty),
+    ensures
+        (if pre.state is Init { brem } else { logical(pre, rem) }) == render(e) + logical(post, rem2),
+{
+    let r: core::result::Result<Event<'i>, Error> = Ok(e);
+    reveal(event_post);
+    assert(!io_fail(pre, rem, post, r, false)) by { reveal(io_fail); }
+    let m = choose|m: ReaderState| #[trigger] arm_post(pre, rem, brem, m, rem2, r, false) && post == finish(m, r);
+    reveal(arm_post);
+    // Eof and errors end the document; an event leaves the state machine where the arm left it
+    assert(post.state == (if e is Eof { ParseState::Done } else { m.state }) && post.config == m.config);
+    match pre.state {
+        ParseState::Done => { assert(render(e) + rem2 =~= rem2); }
+        ParseState::InsideMarkup => { lemma_markup_consumes_render(pre, rem, m, rem2, e); }
+        ParseState::InsideEmpty => {}
+        _ => {
+            let p1 = ReaderState { state: ParseState::InsideText, ..pre };
+            let input = if pre.state is Init { brem } else { rem };
+            assert(text_post(p1, input, m, rem2, r, false));
+            lemma_text_consumes_render(p1, input, m, rem2, e);
+        }
+    }
+}
+/// a string that holds a '<' has a first one
+proof fn lemma_first_lt_exists(s: Seq<u8>, n: int)
+    requires 0 <= n <= s.len()
+    ensures (exists|i: int| 0 <= i < n && first_lt(s, i)) || forall|j: int| 0 <= j < n ==> #[trigger] s[j] != 0x3c
+    decreases n
+{
+    if n > 0 {
+        lemma_first_lt_exists(s, n - 1);
+        if forall|j: int| 0 <= j < n - 1 ==> #[trigger] s[j] != 0x3c {
+            if s[n - 1] == 0x3c { assert(first_lt(s, n - 1)); }
+        } else {
+            let i = choose|i: int| 0 <= i < n - 1 && first_lt(s, i);
+            assert(0 <= i < n && first_lt(s, i));
+        }
+    }
+}
+/// the character-data step
+proof fn lemma_text_consumes_render<'i>(p1: ReaderState, input: Seq<u8>, m: ReaderState, rem2: Seq<u8>, e: Event<'i>)
+    requires
+        text_post(p1, input, m, rem2, Ok(e), false), p1.state is InsideText,
+        verbatim(p1.config), !(e is DocType),
+    ensures
+        input == render(e) + (if e is Eof { rem2 } else { logical(m, rem2) }),
+        e is Eof ==> m.state is Done,
+{
+    let r: core::result::Result<Event<'i>, Error> = Ok(e);
+    reveal(text_post);
+    assert(!io_fail(p1, input, m, r, false)) by { reveal(io_fail); }
+    let r1 = text_start(p1.config.trim_text_start, input);
+    assert(r1 == input);
+    if no_lt(r1) {
+        assert(rem2 =~= Seq::<u8>::empty());
+        if e is Eof { assert(input =~= render(e) + rem2); } else { assert(input =~= render(e) + logical(m, rem2)); }
+    } else {
+        lemma_first_lt_exists(r1, r1.len() as int);
+        let i = choose|i: int| first_lt(r1, i);
+        if i == 0 {
+            let pm = ReaderState { state: ParseState::InsideMarkup, offset: (p1.offset + (input.len() - r1.len()) + 1) as u64, ..p1 };
+            lemma_markup_consumes_render(pm, skip(r1, 1), m, rem2, e);
+            assert(lt() + skip(r1, 1) =~= input);
+        } else {
+            assert(input =~= r1.subrange(0, i) + (lt() + skip(r1, i + 1)));
+        }
+    }
+}
 }
